@@ -1,4 +1,5 @@
 import Zc.Model.Dns
+import Zc.GenFacts.FnDns
 /-! # C20 — record identity
 
 Equal records hash equal; case, TTL, creation time and the cache-flush bit are ignored;
@@ -238,5 +239,38 @@ example :
   have hb : (⟨"a.local.", 16, 1, false, 10, 0, .txt []⟩ : Rec).beq id ⟨"a.local.", 16, 1, false, 120, 0, .txt []⟩ = true :=
     (C20_eq_iff id _ _).mpr ⟨rfl, rfl⟩
   simp [rrsetSuppresses, rrsetLookup, List.find?, hb, Gen.Dns.rrset_suppresses_ttl]
+
+/-! ## Tie: `_suppressed_by_answer` / `suppressed_by`, translated statement by statement on every run
+
+`Zc.GenFn.Dns` is regenerated from the method *bodies* of `DNSRecord` (`tools/gen_fn.py`); `GenFacts/FnDns.lean` proves them
+equal to the model definitions used above.  So the clause holds of the translated source, with its `self == other` test
+(the identity above) and its loop over `msg.answers()`. -/
+section Tie
+open Zc.GenFn.Dns
+
+/-- the translated `DNSRecord._suppressed_by_answer`: same record and more than half of the TTL -/
+theorem C20_suppressed_by_answer_source (a b : Rec) :
+    DNSRecord.suppressed_by_answer lower a b = true ↔
+      a.rdata.kind = b.rdata.kind ∧ a.specIdent lower = b.specIdent lower ∧ a.ttl < 2 * b.ttl := by
+  rw [Zc.GenFacts.FnDns.suppressed_by_answer_eq]
+  exact C20_suppressed_by_answer_iff lower a b
+
+/-- the translated `DNSRecord.suppressed_by(msg)`: some answer of the message is the same record with more than half of the TTL -/
+theorem C20_suppressed_by_source (r : Rec) (answers : List Rec) :
+    DNSRecord.suppressed_by lower r answers = true ↔
+      ∃ o ∈ answers, r.rdata.kind = o.rdata.kind ∧ r.specIdent lower = o.specIdent lower ∧ r.ttl < 2 * o.ttl := by
+  rw [Zc.GenFacts.FnDns.suppressed_by_eq, List.any_eq_true]
+  constructor
+  · rintro ⟨o, ho, h⟩; exact ⟨o, ho, (C20_suppressed_by_answer_iff lower r o).1 h⟩
+  · rintro ⟨o, ho, h⟩; exact ⟨o, ho, (C20_suppressed_by_answer_iff lower r o).2 h⟩
+
+/-- non-vacuity: a known answer with TTL 61 suppresses a TTL-120 record in another spelling, one with TTL 60 does not -/
+example :
+    DNSRecord.suppressed_by id ⟨"a.local.", 16, 1, false, 120, 0, .txt [1]⟩
+        [⟨"b.local.", 16, 1, false, 4500, 0, .txt [1]⟩, ⟨"a.local.", 16, 1, true, 61, 5, .txt [1]⟩] = true
+    ∧ DNSRecord.suppressed_by id ⟨"a.local.", 16, 1, false, 120, 0, .txt [1]⟩ [⟨"a.local.", 16, 1, true, 60, 5, .txt [1]⟩] = false := by
+  decide
+
+end Tie
 
 end Zc
